@@ -138,7 +138,7 @@ FPTR = {"base": "int", "ptr": 0, "const": False, "fptr": True}
 VALUES = {
     "intent": [None, "in", "out", "inout", "IN", "bad"],
     "deref": [None, "allocatable", "pointer", "raw", "scalar", "bad"],
-    "rank": [None, "1", "2", "7", "8", "12", "x"],
+    "rank": [None, "0", "1", "2", "7", "8", "12", "x"],
     "dimension": [None, "3", "n"],
     "owner": [None, "caller", "library", "bad"],
     "charlen": [None, "20"],
